@@ -166,6 +166,7 @@ class SimInitTable(Spec):
         return {
             "ok": pd.DataFrame({"ID": ["a", "a", "b"], "TIME": [70.0, 71.5, 65.0]}),
             "unsorted_dups": pd.DataFrame({"ID": ["b", "a", "b", "a"], "TIME": [72.0, 71.5, 65.0, 71.5]}),
+            "int_ids": pd.DataFrame({"ID": [3, 3, 12, 12], "TIME": [70.0, 71.5, 65.0, 66.0]}),
             "no_time": pd.DataFrame({"ID": ["a", "b"], "AGE": [70.0, 71.0]}),
             "no_id": pd.DataFrame({"SUBJ": ["a", "b"], "TIME": [70.0, 71.0]}),
             "null_time": pd.DataFrame({"ID": ["a", "b"], "TIME": [70.0, None]}),
@@ -186,12 +187,15 @@ class SimInitTable(Spec):
         return dict(args=(self_, settings), self=self_, df=df)
 
     def raises(self, cx, st):
-        return [(AlgoErr(), z3.BoolVal(st["cfg"]["table"] not in ("ok", "unsorted_dups")))]
+        return [(AlgoErr(), z3.BoolVal(st["cfg"]["table"] not in ("ok", "unsorted_dups", "int_ids")))]
 
     def post(self, cx, st, out):
+        fresh = self.tables()[st["cfg"]["table"]]
+        same = fresh.equals(st["df"]) and list(map(str, fresh.dtypes)) == list(map(str, st["df"].dtypes)) and list(fresh.columns) == list(st["df"].columns)
         return [("one simulated individual per distinct ID of the table",
                  z3.BoolVal(st["self"].f["param_study"]["patient_number"] == 2)),
-                ("the caller's table is the one used", z3.BoolVal(st["self"].f["param_study"]["df_visits"] is st["df"]))]
+                ("the caller's table is the one used", z3.BoolVal(st["self"].f["param_study"]["df_visits"] is st["df"])),
+                ("and it is left exactly as it was (values, columns, dtypes)", z3.BoolVal(bool(same)))]
 
 
 class RoundingPrecision(Spec):
@@ -287,7 +291,77 @@ class VisitLoop(Spec):
         return [("the loop ends at or after the follow-up age", t >= st["fu"])]
 
 
-UNITS = [SimInit(), SimInitFeatures(), SimInitTable(), RoundingPrecision(), VisitLoop()]
+def visit_ages_entry(cx, env):
+    """the list the loop appends to, as a symbolic sequence (it is a python list of one or no symbolic age when the loop is reached)"""
+    from pyvc.coll import seq_from_list, REAL, SSeq
+    lst = env.get("age_visits")
+    if isinstance(lst, list):
+        env["age_visits"] = seq_from_list(cx, REAL, lst, pytype=list, name="age_visits")
+
+
+def visit_ages_inv(cx, env, k, view):
+    from pyvc.coll import SSeq
+    t, t0 = to_z3(env["time"], "real"), cx.ghost["t0"]
+    av = env.get("age_visits")
+    if not isinstance(av, SSeq):
+        return [("the visit ages are a list", z3.BoolVal(False))]
+    i, j = z3.Ints("i_inv j_inv")
+    return [("time never decreases", t >= t0),
+            ("the baseline age is the first visit (at least one visit)", z3.And(av.length >= 1, av.at(0) == t0)),
+            ("the ages listed so far strictly increase", z3.ForAll([i, j], z3.Implies(z3.And(0 <= i, i < j, j < av.length), av.at(i) < av.at(j)))),
+            ("the last listed age is the current one", av.at(av.length - 1) == t)]
+
+
+class VisitAges(Spec):
+    """statement range of _generate_visit_ages for one individual, from `time = <baseline age>` to `dict_timepoints[id_] = ...`
+    (dropped: the pandas bookkeeping around it), random design with a positive mean distance and std = 0: the individual gets at
+    least one visit, the first one at its baseline age -- also when the follow-up is zero or negative -- and the ages strictly increase."""
+    target = SIM + "._generate_visit_ages"
+    fragment = (lambda t: t.startswith("time = df_ind.loc["), lambda t: t.startswith("dict_timepoints[id_] ="))
+
+    def __init__(self):
+        self.loops = {("SimulationAlgorithm._generate_visit_ages", 1): LoopSpec(
+            visit_ages_inv, decreases=visit_loop_variant, modifies=lambda cx, env: [env["age_visits"]], on_entry=visit_ages_entry)}
+
+    def setup(self, cx, cfg):
+        from leaspy.algo.simulate.simulate import VisitType
+        t0, fu, mean = z3.Reals("t0 follow_up mean")
+        cx.ghost.update(t0=t0, fu=fu, mean=mean)
+
+        class _Loc(Symbolic):
+            def _getitem(self_, it, idx, node=None):
+                col = idx[1] if isinstance(idx, tuple) else idx
+                return SV(t0 if col == "AGE_AT_BASELINE" else fu, "real")
+
+        class _DF(Symbolic):
+            def _getattr(self_, it, name, node=None):
+                if name == "loc":
+                    return _Loc()
+                raise OutOfSubset(name)
+        self_ = SymObj(resolve(SIM), dict(visit_type=VisitType.RANDOM, param_study={"distance_visit_mean": SV(mean, "real"), "distance_visit_std": 0.0}))
+        out = {}
+        env = {"self": self_, "df_ind": _DF(), "id_": "s0", "VisitType": VisitType, "dict_timepoints": out, "np": __import__("numpy")}
+        return dict(env=env, t0=t0, fu=fu, mean=mean, out=out)
+
+    def pre(self, cx, st):
+        return [("positive mean distance (accepted design)", st["mean"] > 0)]
+
+    def post(self, cx, st, out):
+        from pyvc.coll import SSeq
+        v = st["out"].get("s0")
+        if isinstance(v, list):
+            n = len(v)
+            ages = [to_z3(x, "real") for x in v]
+            return [("at least one visit, the first at the baseline age", z3.BoolVal(n >= 1) if n == 0 else ages[0] == st["t0"]),
+                    ("ages strictly increase", z3.And(*[a < b for a, b in zip(ages, ages[1:])]) if n > 1 else z3.BoolVal(True))]
+        if not isinstance(v, SSeq):
+            return [("the individual's visit ages are stored", z3.BoolVal(False))]
+        i, j = z3.Ints("i_p j_p")
+        return [("at least one visit, the first at the baseline age", z3.And(v.length >= 1, v.at(0) == st["t0"])),
+                ("ages strictly increase", z3.ForAll([i, j], z3.Implies(z3.And(0 <= i, i < j, j < v.length), v.at(i) < v.at(j))))]
+
+
+UNITS = [SimInit(), SimInitFeatures(), SimInitTable(), RoundingPrecision(), VisitLoop(), VisitAges()]
 CALLEES = []
 NOT_DECIDED = ["termination of the visit loop when distance_visit_std > 0 (a Gaussian step can be negative: almost-sure only)",
                "the pandas / scipy part of _generate_dataset and _run (bounded stand-in)", "distribution of the draws"]
